@@ -272,6 +272,35 @@ func runC20In(c *Ctx) {
 		c.Undecided("exhaustive:prom.Metrics", rEx, "prom.Metrics has no collector fields")
 	}
 	c.Check(len(regCalls) == 1, "register-loop:(*prom.Metrics).Register", "Register passes each listed collector to the Registerer and propagates failure", "one Register invoke in a loop over the collectors", fmt.Sprintf("%d Register invokes", len(regCalls)), c.fnAt(reg))
+	if len(regCalls) == 1 {
+		// every registration failure is returned: a Metrics whose collectors are not the registered ones
+		// (e.g. "already registered" swallowed) observes into vectors nobody exports
+		const rReg = "a failed Registerer.Register makes Metrics.Register return an error, whatever the error is: no failure is swallowed or special-cased"
+		rc := regCalls[0].(*ssa.Call)
+		ifi := errNotNilIf(rc, rc)
+		okR := ifi != nil
+		whyR := "the error of r.Register is not tested"
+		if okR {
+			set := exploreBlock(ifi.Block().Succs[0], nil)
+			if len(returnsIn(set)) == 0 {
+				okR, whyR = false, "a registration failure does not end Register"
+			}
+			for i := range set {
+				if _, isIf := i.(*ssa.If); isIf {
+					okR, whyR = false, "some registration failures are special-cased (the loop goes on although the collector is not the registered one): later observations on this Metrics are not exported"
+				}
+				if i == ssa.Instruction(rc) {
+					okR, whyR = false, "after a registration failure the loop continues"
+				}
+			}
+			for _, r := range returnsIn(set) {
+				if isNilConst(r.(*ssa.Return).Results[0]) {
+					okR, whyR = false, "a registration failure returns nil"
+				}
+			}
+		}
+		c.Check(okR, "register-error:(*prom.Metrics).Register", rReg, "error edge returns the failure", whyR, c.at(rc))
+	}
 
 	// --- (1) unused builder result + (3) provenance + (4) labels
 	const rUnused = "the result of WithLabelValues on a metric vector is the receiver of Add, Inc or Observe"
